@@ -75,12 +75,14 @@ async fn client(c: u64, st: Arc<Storage<ArrayKey<N>>>, log: Arc<Log>, ops: u64, 
         // care (a write creates the active blob it needs).  Logged as `adm` events, which carry no data.
         let life = LIFECYCLE.load(Ordering::SeqCst);
         if life > 0 && rng.gen_range(0..1000) < life {
-            let what = rng.gen_range(0..4);
+            let what = rng.gen_range(0..6);
             log.push(json!({"ev": "adm", "c": c, "op": what, "opid": opid}));
             let r = match what {
                 0 | 1 => st.try_close_active_blob().await.is_ok(),
                 2 => st.try_restore_active_blob().await.is_ok(),
-                _ => st.try_create_active_blob().await.is_ok(),
+                3 => st.try_create_active_blob().await.is_ok(),
+                // the worker creates the next blob on its own while clients may be creating one, too
+                _ => { st.force_update_active_blob(|_| true).await; true }
             };
             log.push(json!({"ev": "admdone", "c": c, "opid": opid, "ok": r}));
             continue;
